@@ -124,6 +124,9 @@ func c12(p *P) {
 				}
 			})
 			r.Check((fromAll || strings.Contains(arg, walPkg+"All(")) && strings.HasSuffix(arg, ".Message"), "C12.R4", "newRunner: each WAL entry's message is fed to the filter", p.c.InstrPos(pb[0].Instr), arg, "filter is fed "+arg)
+			// … and it is the RUNNER's filter that is re-armed (not a local copy that is thrown away)
+			recv := pb[0].Arg(0)
+			r.Check(strings.HasSuffix(recv, "f3.gpbftRunner.equivFilter") && strings.HasPrefix(recv, "&"), "C12.R4", "newRunner: the replay re-arms the runner's own filter", p.c.InstrPos(pb[0].Instr), recv, "the WAL is replayed into "+recv+", not into the filter the runner uses — after a restart the node has forgotten every vote it logged")
 			p.fullRangeLoop("C12.R4", "newRunner: every WAL entry is replayed", pb[0].Instr, nil)
 			var okRet []Sink
 			for _, ret := range returnsOf(nr) {
